@@ -515,3 +515,384 @@ theorem sim_internal (s : St) (e : Ev) (s' : St) (ms : C16St) (hR : Rel s ms)
       rcases he with h | h <;> subst h <;> exact ho
 
 end UtilModel.Once
+
+namespace UtilModel.Once
+open UtilModel
+
+/-- quiescence, from the invariant -/
+theorem quiescent_pending_inv (s : St) (hi : Inv s)
+    (hq : quiescent s = true) (t : Nat) (c : Caller) (hc : s.cs[t]? = some c)
+    (hp : ∀ v e, c.pc ≠ .done v e) :
+    c.cx = false ∧ ∃ f fn, c.pc = .awaiting f ∧ s.fns[f]? = some fn ∧ fn.st = .running := by
+  simp only [quiescent, Bool.and_eq_true, List.all_eq_true] at hq
+  have hcq := hq.1 c (List.mem_of_getElem? hc)
+  unfold Caller.quiet at hcq
+  split at hcq <;> try simp at hcq
+  · rename_i f hpc
+    have hlt := hi.awaitLt t c f hc hpc
+    obtain ⟨fn, hf⟩ : ∃ fn, s.fns[f]? = some fn := ⟨s.fns[f], by simp⟩
+    refine ⟨hcq.1, f, fn, hpc, hf, ?_⟩
+    have hfq := hq.2 fn (List.mem_of_getElem? hf)
+    unfold Fn.quiet at hfq
+    split at hfq <;> try simp at hfq
+    · assumption
+    · rename_i hfin
+      have := (hi.wf f fn hf).1.mpr hfin
+      simp [resOf, hf] at hcq
+      simp [hcq.2] at this
+  · rename_i v e hpc; exact absurd hpc (hp v e)
+
+theorem mem_pendingIds (s : St) (t : Nat) (h : t ∈ pendingIds s) :
+    ∃ c, s.cs[t]? = some c ∧ ∀ v e, c.pc ≠ .done v e := by
+  simp only [pendingIds, List.mem_filter, List.mem_range] at h
+  obtain ⟨hlt, hp⟩ := h
+  refine ⟨s.cs[t], by simp, ?_⟩
+  intro v e hd
+  simp [hlt, hd] at hp
+
+theorem sim_obs (s : St) (e : Ev) (s' : St) (ms : C16St) (hR : Rel s ms)
+    (hst : step s e = some s') (o : Obs) (hobs : e.obs = some o) :
+    ∃ ms', monC16.step ms o = some ms' ∧ Rel s' ms' := by
+  have hi := hR.inv
+  have hi' := step_inv s e s' hi hst
+  cases e with
+  | chkCtx t => simp [Ev.obs] at hobs
+  | lockCS t => simp [Ev.obs] at hobs
+  | sel t br => simp [Ev.obs] at hobs
+  | fnClear f => simp [Ev.obs] at hobs
+  | fnCheck f => simp [Ev.obs] at hobs
+  | fnPublish f => simp [Ev.obs] at hobs
+  | inv t =>
+    simp [Ev.obs] at hobs; subst hobs
+    have hst0 := hst
+    simp only [step] at hst; split at hst <;> simp at hst; subst hst
+    rename_i ht
+    refine ⟨_, by (simp [monC16, hR.lenC, ht]; first | done | rfl), ?_⟩
+    refine hR.of_fns_same hi' rfl rfl rfl (by simp [hR.lenC]) (Nat.le_refl _) hR.seen hR.seenLe (by simp) ?_
+    intro u d mc hu hm
+    simp only at hu hm
+    rcases getElem?_snoc_cases _ _ _ _ hu with ⟨hul, hx⟩ | ⟨hul, rfl⟩
+    · rcases getElem?_snoc_cases _ _ _ _ hm with ⟨_, hy⟩ | ⟨hml, _⟩
+      · exact (hR.callR u d mc hx hy).step hi hst0 (Nat.le_refl _)
+      · have := hR.lenC; omega
+    · rcases getElem?_snoc_cases _ _ _ _ hm with ⟨hml, _⟩ | ⟨_, rfl⟩
+      · have := hR.lenC; omega
+      · refine ⟨rfl, by simp, Nat.le_refl _, by simp, by simp, ?_, by simp, by simp⟩
+        intro f hf
+        obtain ⟨fn, h1, h2⟩ := hR.okAt f hf
+        exact ⟨fn, h1, h2⟩
+  | envCancel t =>
+    simp [Ev.obs] at hobs; subst hobs
+    have hst0 := hst
+    simp only [step] at hst
+    split at hst <;> simp at hst
+    rename_i c hc
+    subst hst
+    have htl : t < ms.calls.length := by rw [hR.lenC]; exact lt_of_getElem? hc
+    obtain ⟨mc, hmc⟩ : ∃ mc, ms.calls[t]? = some mc := ⟨ms.calls[t], by simp⟩
+    refine ⟨_, by (simp [monC16, hmc]; first | done | rfl), ?_⟩
+    refine hR.of_fns_same hi' rfl rfl rfl (by simp [hR.lenC]) (Nat.le_refl _) hR.seen hR.seenLe (by simp) ?_
+    intro u d md hu hm
+    simp only at hu hm
+    rcases getElem?_set_cases s.cs t u _ d hu with ⟨rfl, rfl⟩ | ⟨hne, hx⟩
+    · rw [getElem?_set_self' _ _ _ _ hmc] at hm; cases hm
+      have h := (hR.callR u c mc hc hmc).step (ms' := ms) hi hst0 (Nat.le_refl _)
+      exact ⟨rfl, h.ret, h.minLe, h.minAw, h.minRet, h.okS, h.okAw, h.okRet⟩
+    · rw [getElem?_set_ne' _ _ _ _ (fun e => hne e.symm)] at hm
+      exact (hR.callR u d md hx hm).step hi hst0 (Nat.le_refl _)
+  | ret t v e =>
+    simp [Ev.obs] at hobs; subst hobs
+    have hst0 := hst
+    simp only [step] at hst
+    split at hst <;> try simp at hst
+    rename_i c hc
+    split at hst <;> try simp at hst
+    rename_i v' e' hpc
+    obtain ⟨⟨rfl, rfl⟩, rfl⟩ := hst
+    have htl : t < ms.calls.length := by rw [hR.lenC]; exact lt_of_getElem? hc
+    obtain ⟨mc, hmc⟩ : ∃ mc, ms.calls[t]? = some mc := ⟨ms.calls[t], by simp⟩
+    have h := hR.callR t c mc hc hmc
+    have hnr : mc.ret = false := by
+      cases hr : mc.ret with
+      | false => rfl
+      | true => obtain ⟨a, b, hd⟩ := h.ret.mp hr; rw [hpc] at hd; cases hd
+    -- the relation after the return, for any new value of `seenErr` justified by `hseen`
+    have build : ∀ (se : Nat), ms.seenErr ≤ se →
+        (∀ (f : Nat) (fn : Fn), s.fns[f]? = some fn → f < se → fn.holds = false) → se ≤ s.fns.length →
+        Rel (setPc s t c (.done v e))
+          { ms with calls := ms.calls.set t { mc with ret := true }, seenErr := se } := by
+      intro se hse hseen hsl
+      refine hR.of_fns_same hi' rfl rfl rfl (by simp [setPc, hR.lenC]) hse hseen hsl (by simp [setPc]) ?_
+      intro u d md hu hm
+      simp only [setPc] at hu hm
+      rcases getElem?_set_cases s.cs t u _ d hu with ⟨rfl, rfl⟩ | ⟨hne, hx⟩
+      · rw [getElem?_set_self' _ _ _ _ hmc] at hm; cases hm
+        have h' := h.step (ms' := { ms with calls := ms.calls.set u { mc with ret := true }, seenErr := se }) hi hst0 hse
+        exact ⟨h'.cx, by simp, h'.minLe, by simp, by simp, h'.okS, by simp, by simp⟩
+      · rw [getElem?_set_ne' _ _ _ _ (fun e => hne e.symm)] at hm
+        exact (hR.callR u d md hx hm).step hi hst0 hse
+    rcases hi.retdOk t c v e hc (Or.inl hpc) with ⟨hv, he, hcx⟩ | ⟨hne, f, fn, hf, hr⟩
+    · subst hv he
+      have hmcx : mc.cx = true := by rw [h.cx]; exact hcx
+      have hstep : monC16.step ms (.ret t 0 .canceled) =
+          some { ms with calls := ms.calls.set t { mc with ret := true }, seenErr := ms.seenErr } := by
+        simp [monC16, hmc, hnr, hmcx]
+      exact ⟨_, hstep, build ms.seenErr (Nat.le_refl _) hR.seen hR.seenLe⟩
+    · obtain ⟨w1, w2, -⟩ := hi.wf f fn hf
+      have hfin := w1.mp (by simp [hr])
+      have hent : f < ms.fns.length := (hR.entered f fn hf).mpr (by rw [hfin]; simp)
+      obtain ⟨mf, hmf⟩ : ∃ mf, ms.fns[f]? = some mf := ⟨ms.fns[f], by simp⟩
+      have hor := (hR.fnR f fn mf hf hmf).2
+      simp only [outRel, hfin, hr] at hor
+      rcases w2 v e hr with ⟨he, hv⟩ | ⟨hv, he | he⟩
+      · subst he hv
+        simp only at hor
+        have hok : mc.okAtInv = none ∨ mc.okAtInv = some f := by
+          cases hoi : mc.okAtInv with
+          | none => exact Or.inl rfl
+          | some f0 =>
+            rcases h.okRet f0 _ _ hoi hpc with ⟨h1, _⟩ | h1
+            · right; congr; omega
+            · cases h1
+        have hstep : monC16.step ms (.ret t (f + 1) .nil) =
+            some { ms with calls := ms.calls.set t { mc with ret := true }, seenErr := ms.seenErr } := by
+          rcases hok with hok | hok <;> simp [monC16, hmc, hnr, hmf, hor, hok]
+        exact ⟨_, hstep, build ms.seenErr (Nat.le_refl _) hR.seen hR.seenLe⟩
+      · subst hv he
+        simp only at hor
+        obtain ⟨e0, ho, he0⟩ := hor
+        have he0' : e0 = .custom (f + 1) := by rcases he0 with h | h <;> simp_all
+        subst he0'
+        have hmin := h.minRet 0 (f + 1) hpc
+        have hoi : mc.okAtInv = none := by
+          cases hoi : mc.okAtInv with
+          | none => rfl
+          | some f0 =>
+            rcases h.okRet f0 _ _ hoi hpc with ⟨_, h1⟩ | h1 <;> cases h1
+        have hstep : monC16.step ms (.ret t 0 (.custom (f + 1))) =
+            some { ms with calls := ms.calls.set t { mc with ret := true }, seenErr := max ms.seenErr (f + 1) } := by
+          simp [monC16, hmc, hnr, hmf, ho, hmin, hoi]
+        have hlt := lt_of_getElem? hf
+        refine ⟨_, hstep, ?_⟩
+        refine build (max ms.seenErr (f + 1)) (Nat.le_max_left _ _) ?_ (by have := hR.seenLe; omega)
+        intro g gn hg hlt'
+        by_cases hgs : g < ms.seenErr
+        · exact hR.seen g gn hg hgs
+        · by_cases hgf : g = f
+          · subst hgf; rw [hf] at hg; cases hg
+            exact holds_false_of_res_err s hi g fn hf 0 _ hr (by simp)
+          · exact not_last_not_holds s hi g f gn hg hlt (by omega)
+      · exact absurd he hne
+  | cbin f t =>
+    simp [Ev.obs] at hobs; subst hobs
+    have hst0 := hst
+    simp only [step] at hst
+    split at hst <;> try simp at hst
+    rename_i fn hf
+    split at hst <;> try simp at hst
+    rename_i hfs
+    obtain ⟨hinit, rfl⟩ := hst
+    have hflt := lt_of_getElem? hf
+    have hh : s.slot = some f := (hi.holds f fn hf).mp (holds_of_active fn (Or.inl hfs))
+    have hlast := hi.slotLast f hh
+    have htl : t < ms.calls.length := by rw [hR.lenC, ← hinit]; exact hR.initLt f fn hf
+    obtain ⟨mc, hmc⟩ : ∃ mc, ms.calls[t]? = some mc := ⟨ms.calls[t], by simp⟩
+    -- f is the first instance the monitor has not seen
+    have hge : ¬ f < ms.fns.length := by
+      intro h; exact (hR.entered f fn hf).mp h hfs
+    have hle : f ≤ ms.fns.length := by
+      rcases Nat.lt_or_ge ms.fns.length f with hlt | hge'
+      · exfalso
+        obtain ⟨gn, hg⟩ : ∃ gn, s.fns[ms.fns.length]? = some gn := ⟨s.fns[ms.fns.length]'(by omega), by simp⟩
+        have hsp : gn.st = .spawned := by
+          cases hgs : gn.st with
+          | spawned => rfl
+          | _ => exact absurd ((hR.entered _ gn hg).mpr (by rw [hgs]; simp)) (Nat.lt_irrefl _)
+        have := hi.slotLast _ ((hi.holds _ gn hg).mp (holds_of_active gn (Or.inl hsp)))
+        omega
+      · exact hge'
+    have hfeq : f = ms.fns.length := by omega
+    have hnr : ms.fnRunning = false := by
+      simp only [C16St.fnRunning, List.any_eq_false]
+      intro mf hmem
+      obtain ⟨g, hgl, hg⟩ := List.getElem_of_mem hmem
+      have hg' : ms.fns[g]? = some mf := by simp [hgl, hg]
+      have hgs : g < s.fns.length := by have := hR.lenF; omega
+      obtain ⟨gn, hgn⟩ : ∃ gn, s.fns[g]? = some gn := ⟨s.fns[g], by simp⟩
+      have hor := (hR.fnR g gn mf hgn hg').2
+      intro hnone
+      have hnone' : mf.out = none := by simpa using hnone
+      have hrun : gn.st = .running := by
+        have hnsp := (hR.entered g gn hgn).mp hgl
+        unfold outRel at hor
+        rw [hnone'] at hor
+        cases hgs' : gn.st with
+        | spawned => exact absurd hgs' hnsp
+        | running => rfl
+        | returned x => simp [hgs'] at hor
+        | cleared x => simp [hgs'] at hor
+        | decided x => simp [hgs'] at hor
+        | finished =>
+          simp only [hgs'] at hor
+          split at hor <;> simp at hor
+      have := (hi.holds g gn hgn).mp (holds_of_active gn (Or.inr (Or.inl hrun)))
+      rw [hh] at this; cases this; omega
+    have hok : ms.okAt = none := by
+      cases hoa : ms.okAt with
+      | none => rfl
+      | some g =>
+        obtain ⟨gn, hg, hgs⟩ := hR.okAt g hoa
+        have := (hi.holds g gn hg).mp (succeeded_holds gn hgs)
+        rw [hh] at this; cases this
+        rw [hf] at hg; cases hg
+        simp [Fn.succeeded, hfs] at hgs
+    refine ⟨_, by (simp [monC16, hmc, hfeq, hnr, hok]; first | done | rfl), ?_⟩
+    refine ⟨hi', hR.lenC, ?_, by simp [setFs]; have := hR.lenF; omega, ?_, ?_, ?_, ?_, by simp [setFs]; exact hR.seenLe, ?_⟩
+    · intro u d md hu hm
+      exact (hR.callR u d md hu hm).step hi hst0 (Nat.le_refl _)
+    · intro g gn hg
+      simp only [setFs] at hg
+      simp only [List.length_append, List.length_singleton]
+      rcases getElem?_set_cases s.fns f g _ gn hg with ⟨rfl, rfl⟩ | ⟨hne, hx⟩
+      · simp; omega
+      · have := hR.entered g gn hx
+        constructor
+        · intro hlt
+          have hgl : g < ms.fns.length := by omega
+          exact this.mp hgl
+        · intro h; have := this.mpr h; omega
+    · intro g gn mf hg hm
+      simp only [setFs] at hg
+      rcases getElem?_set_cases s.fns f g _ gn hg with ⟨rfl, rfl⟩ | ⟨hne, hx⟩
+      · rw [hfeq] at hm; simp at hm; subst hm
+        exact ⟨hinit.symm, by simp [outRel]⟩
+      · rcases getElem?_snoc_cases _ _ _ _ hm with ⟨_, hy⟩ | ⟨hgl, _⟩
+        · exact hR.fnR g gn mf hx hy
+        · exact absurd (hgl.trans hfeq.symm) hne
+    · intro g hg
+      first | (simp only at hg; rw [hok] at hg; cases hg) | cases hg | simp [hok] at hg
+    · intro g gn hg hlt'
+      simp only [setFs] at hg
+      rcases getElem?_set_cases s.fns f g _ gn hg with ⟨rfl, rfl⟩ | ⟨hne, hx⟩
+      · have := hR.seen g fn hf hlt'
+        simp [holds_of_active fn (Or.inl hfs)] at this
+      · exact hR.seen g gn hx hlt'
+    · intro g gn hg
+      simp only [setFs] at hg ⊢
+      rcases getElem?_set_cases s.fns f g _ gn hg with ⟨rfl, rfl⟩ | ⟨hne, hx⟩
+      · exact hR.initLt g fn hf
+      · exact hR.initLt g gn hx
+  | cbout f o =>
+    simp [Ev.obs] at hobs; subst hobs
+    have hst0 := hst
+    simp only [step] at hst
+    split at hst <;> try simp at hst
+    rename_i fn hf
+    split at hst <;> try simp at hst
+    rename_i hfs
+    obtain ⟨hokf, rfl⟩ := hst
+    have hent : f < ms.fns.length := (hR.entered f fn hf).mpr (by rw [hfs]; simp)
+    obtain ⟨mf, hmf⟩ : ∃ mf, ms.fns[f]? = some mf := ⟨ms.fns[f], by simp⟩
+    obtain ⟨hin, hor⟩ := hR.fnR f fn mf hf hmf
+    simp only [outRel, hfs] at hor
+    refine ⟨_, by (simp [monC16, hmf, hor, hokf]; first | done | rfl), ?_⟩
+    refine ⟨hi', hR.lenC, ?_, by simp [setFs]; exact hR.lenF, ?_, ?_, ?_, ?_, by simp [setFs]; exact hR.seenLe, ?_⟩
+    · intro u d md hu hm
+      exact (hR.callR u d md hu hm).step hi hst0 (Nat.le_refl _)
+    · intro g gn hg
+      simp only [setFs] at hg
+      simp only [List.length_set]
+      rcases getElem?_set_cases s.fns f g _ gn hg with ⟨rfl, rfl⟩ | ⟨hne, hx⟩
+      · simp; exact hent
+      · exact hR.entered g gn hx
+    · intro g gn mg hg hm
+      simp only [setFs] at hg
+      rcases getElem?_set_cases s.fns f g _ gn hg with ⟨rfl, rfl⟩ | ⟨hne, hx⟩
+      · rw [getElem?_set_self' _ _ _ _ hmf] at hm; cases hm
+        exact ⟨hin, by simp [outRel]⟩
+      · rw [getElem?_set_ne' _ _ _ _ (fun e => hne e.symm)] at hm
+        exact hR.fnR g gn mg hx hm
+    · intro g hg
+      simp only at hg
+      cases o with
+      | ok v =>
+        simp at hg; subst hg
+        exact ⟨{ fn with st := .returned (.ok v) }, by simp [setFs, lt_of_getElem? hf], by simp [Fn.succeeded]⟩
+      | err e' =>
+        simp at hg
+        obtain ⟨gn, h1, h2⟩ := hR.okAt g hg
+        exact succeeded_step s _ _ hi hst0 g gn h1 h2
+    · intro g gn hg hlt'
+      have hgl : g < s.fns.length := by
+        have := lt_of_getElem? hg; simpa [setFs] using this
+      obtain ⟨go, hgo⟩ : ∃ go, s.fns[g]? = some go := ⟨s.fns[g], by simp⟩
+      obtain ⟨gn', h1, h2⟩ := holds_false_step s _ _ hi hst0 g go hgo (hR.seen g go hgo hlt')
+      rw [hg] at h1; cases h1; exact h2
+    · intro g gn hg
+      simp only [setFs] at hg ⊢
+      rcases getElem?_set_cases s.fns f g _ gn hg with ⟨rfl, rfl⟩ | ⟨hne, hx⟩
+      · exact hR.initLt g fn hf
+      · exact hR.initLt g gn hx
+  | quiesce B =>
+    simp [Ev.obs] at hobs; subst hobs
+    simp only [step] at hst; split at hst <;> simp at hst
+    rename_i hq
+    obtain ⟨hq, rfl⟩ := hq
+    subst hst
+    refine ⟨ms, ?_, hR⟩
+    have hfact : ∀ t ∈ pendingIds s, ∃ mc, ms.calls[t]? = some mc ∧ mc.ret = false ∧ mc.cx = false ∧
+        ms.okAt = none ∧ ms.fnRunning = true := by
+      intro t ht
+      obtain ⟨c, hc, hp⟩ := mem_pendingIds s t ht
+      have htl : t < ms.calls.length := by rw [hR.lenC]; exact lt_of_getElem? hc
+      obtain ⟨mc, hmc⟩ : ∃ mc, ms.calls[t]? = some mc := ⟨ms.calls[t], by simp⟩
+      have h := hR.callR t c mc hc hmc
+      obtain ⟨hcx, f, fn, hpc, hf, hrun⟩ := quiescent_pending_inv s hi hq t c hc hp
+      have hslot := (hi.holds f fn hf).mp (holds_of_active fn (Or.inr (Or.inl hrun)))
+      have h1 : mc.ret = false := by
+        cases hr : mc.ret with
+        | false => rfl
+        | true => obtain ⟨a, b, hd⟩ := h.ret.mp hr; exact absurd hd (hp a b)
+      have h2 : mc.cx = false := by rw [h.cx]; exact hcx
+      have h3 : ms.okAt = none := by
+        cases hoa : ms.okAt with
+        | none => rfl
+        | some g =>
+          obtain ⟨gn, hg, hgs⟩ := hR.okAt g hoa
+          have := (hi.holds g gn hg).mp (succeeded_holds gn hgs)
+          rw [hslot] at this; cases this
+          rw [hf] at hg; cases hg
+          simp [Fn.succeeded, hrun] at hgs
+      have h4 : ms.fnRunning = true := by
+        have hent : f < ms.fns.length := (hR.entered f fn hf).mpr (by rw [hrun]; simp)
+        obtain ⟨mf, hmf⟩ : ∃ mf, ms.fns[f]? = some mf := ⟨ms.fns[f], by simp⟩
+        have hor := (hR.fnR f fn mf hf hmf).2
+        simp only [outRel, hrun] at hor
+        simp only [C16St.fnRunning, List.any_eq_true]
+        exact ⟨mf, List.mem_of_getElem? hmf, by simp [hor]⟩
+      exact ⟨mc, hmc, h1, h2, h3, h4⟩
+    simp only [monC16]
+    split
+    · rfl
+    · rename_i hn
+      exfalso; apply hn
+      rw [List.all_eq_true]
+      intro t ht
+      obtain ⟨mc, h0, h1, h2, h3, h4⟩ := hfact t ht
+      simp [h0, h1, h2, h3, h4]
+
+/-- **C16 (Once), observable form.** Every observable trace of the model — any number of callers,
+every interleaving, every mix of outcomes and cancellations — is accepted by the monitor `monC16`:
+the function is never entered twice at once, never again after a success, values and errors
+returned are outcomes of real calls, an error already handed out is not handed to a later caller,
+`Canceled` goes only to cancelled callers, and at quiescence live callers wait only for a call that
+is in progress. -/
+theorem C16_obs_once (es : List Ev) (s : St) (h : model.run model.init es = some s) :
+    monC16.accepts (es.filterMap model.obs) = true :=
+  monitor_accepts_of_simulation model monC16 Rel rel_init
+    (fun s e s' ms hR hs => by
+      cases hobs : model.obs e with
+      | none => exact sim_internal s e s' ms hR hs hobs
+      | some o => exact sim_obs s e s' ms hR hs o hobs) es s h
+
+end UtilModel.Once
